@@ -637,7 +637,7 @@ def triangle_check(case):
 
 
 # ------------------------------------------------------------------------------------------------ C13.rejects
-CONTROLS = ["trace1.1", "trace0.9", "negeig", "nonherm", "nonherm_i"]
+CONTROLS = ["trace1.1", "trace0.9", "negeig", "nonherm", "nonherm_i", "diag_i"]
 
 
 def control(d: int, base: str, kind: str) -> np.ndarray:
@@ -656,6 +656,12 @@ def control(d: int, base: str, kind: str) -> np.ndarray:
     if kind in ("nonherm", "nonherm_i"):  # trace 1, one off-diagonal entry moved by 0.1 (resp. 0.1i)
         m = rho.copy()
         m[0, 1] += 0.1 if kind == "nonherm" else 0.1j
+        return m
+    if kind == "diag_i":  # trace 1, Hermitian off the diagonal, diagonal with imaginary parts +0.05 / -0.05 (added after seeded change
+        # C13-8: a Hermiticity test that skipped the diagonal)
+        m = rho.astype(complex)
+        m[0, 0] += 0.05j
+        m[d - 1, d - 1] -= 0.05j
         return m
     raise KeyError(kind)
 
